@@ -1,6 +1,7 @@
 package worlds
 
 import (
+	"bytes"
 	"fmt"
 	"math"
 
@@ -34,6 +35,26 @@ func (hookC09) sent(x *fleetExec, e engine.Event, nd *knode, m *kmsg) {
 	}
 	if !protoSketchEqual(streamed, built) || !proto.Equal(streamed, built) {
 		x.fail("stream-equals-message", sig, "the streamed bytes unmarshal to a message that differs from ToProto()", fmt.Sprint(built), fmt.Sprint(streamed))
+	}
+	// the same through a builder that is re-used (Reset) across sketches, as an allocation-free caller does
+	var rbuf bytes.Buffer
+	if x.reusedBuilder == nil {
+		x.reusedBuilder = sketchpb.NewDDSketchBuilder(&rbuf)
+	} else {
+		x.reusedBuilder.Reset(&rbuf)
+		x.st.Probe("streaming-builder-reused")
+	}
+	x.lib("EncodeProto(reused builder)", sig, func() {
+		p := plainOf(nd.real)
+		b := x.reusedBuilder
+		b.SetMapping(func(mb *sketchpb.IndexMappingBuilder) { p.IndexMapping.EncodeProto(mb) })
+		b.SetZeroCount(p.GetZeroCount())
+		b.SetNegativeValues(func(sb *sketchpb.StoreBuilder) { p.GetNegativeValueStore().EncodeProto(sb) })
+		b.SetPositiveValues(func(sb *sketchpb.StoreBuilder) { p.GetPositiveValueStore().EncodeProto(sb) })
+	})
+	reused := &sketchpb.DDSketch{}
+	if err := proto.Unmarshal(rbuf.Bytes(), reused); err != nil || !protoSketchEqual(reused, built) || !proto.Equal(reused, built) {
+		x.fail("stream-equals-message", sig, fmt.Sprintf("the bytes written through a re-used streaming builder do not unmarshal to ToProto() (err=%v)", err), fmt.Sprint(built), fmt.Sprint(reused))
 	}
 	// marshalling the in-memory message and unmarshalling it again is the identity as well
 	b, err := proto.MarshalOptions{Deterministic: true}.Marshal(built)
